@@ -6,68 +6,77 @@ Space: every registered strategy x every phred character 33..126 at every qualit
 position (UMI, ligation, RBSN barcode/enzyme qualities) x header shapes x index kinds x library names
 over the header-safe alphabet, with every library length that moves the name across 240..260 chars.
 Oracle: the inputs themselves (header fields, library, original qualities saturated at phred 51).
-Input generation (position-coded reads, planted barcodes, strategy objects) is shared with props/c02.py.
+Further dimensions (audit wave): five configurations (default index alias / no alias / two other shipped index
+aliases with 8-nt indices and non-numeric identifiers / Hamming-1 barcode expansion with a planted barcode carrying one
+substitution so that raw barcode != corrected barcode), header shapes with 10 fields and no trailing "::", the
+already-demultiplexed k:v header (with the library of its first pass), filter flag Y / control number 18, every
+way the tagger hands a pair to the flagger ([R1,R2], [R1,None], [None,R2]), a refusal is only legitimate when the
+name would really exceed 254 characters, "Single Cell Discoveries" read names (decode only).
+Input generation (strategy objects per configuration, planted barcodes) is in gen/c04_inputs.py; the position-coded
+reads and the layout table come from oracles/c02_layout.py.
 """
-import os
 import traceback
 
 from mc import bind
 from oracles import c02_layout as L
 from oracles import c04_header as H
-from props import c02 as G      # generator side only: loaders, whitelists, planted reads
+from gen import c04_inputs as G
 
 ID = 'C04'
 DESIGN_REF = 'DESIGN.md section 3, C04'
 RULE = ('per registered strategy (accepted pair with a whitelisted barcode planted, reads of 60 nt): every phred char '
         '33..126 at every header-carried quality position; header shapes S1 (index sequence / integer index / '
-        '1-mismatch index), S2, S3, 3-DEC x two coordinate sets x index-alias on/off x 4 library names; library '
+        '1-mismatch index), S2, S3, 3-DEC x two coordinate sets x index-alias on/off x 5 library names; library '
         'lengths moving the name across the tier window around 254; a custom whitelist with string cell indices; '
-        'pure codec: all 94 characters and all 94x94 pairs. A case is non-trivial when the name was decoded '
-        '(or refused); states = distinct inputs')
+        'pure codec: all 94 characters and all 94x94 pairs. Configurations A (default index alias), B (no alias), '
+        'C/D (other shipped index aliases), H (barcode Hamming expansion 1, planted barcode with one substitution); '
+        'shapes additionally S2b (10 fields), SCMO (already demultiplexed k:v header carrying a library); mates handed to the '
+        'flagger as [R1,R2], [R1,None], [None,R2]; Single Cell Discoveries names (decode only). '
+        'A case is non-trivial when the name was decoded (or refused); states = distinct inputs')
 ASSUMPTIONS = [
     'library names and cell indices over [A-Za-z0-9_-]; Illumina fields over the same alphabet',
     'the aligner keeps the read name (FASTQ header without "@") unchanged; a BAM stores at most 254 name characters',
     'the molecular identifier is only demanded when the encoder produced a corrected index (aA); without an index alias '
     'the tagger marks the read as bulk (BK) and no MI exists',
     'CHROMC16U12 accepts nothing in this snapshot (emptied 10x whitelist): vacuous, see counters',
+    'a refusal is legitimate only for a name longer than 254 characters: the length of the refused name is bounded from '
+    'above by the k:v serialisation of ALL tags of the record and otherwise extrapolated from the names the same input '
+    'gets with 1- and 2-character libraries',
+    'a header that already is a demultiplexed k:v header may keep the library it carries: then the library (and sample) '
+    'demanded is the one written in the produced name, which has to be the previous or the new library',
+    'Single Cell Discoveries names are not produced by the demultiplexer: only coordinates, the attributes as written '
+    'and phred attributes as phred characters are demanded',
 ]
 
-_STB = {}       # config B (no index alias): shortName -> strategy
 _USER = {}
 _FN = {}
 READ = 60
 
 
 def setup():
-    if _STB:
+    if _USER:
         return
     G.setup()
-    import singlecellmultiomics
     from singlecellmultiomics.barcodeFileParser.barcodeFileParser import BarcodeParser
-    from singlecellmultiomics.modularDemultiplexer.demultiplexingStrategyLoader import DemultiplexingStrategyLoader
     from singlecellmultiomics.modularDemultiplexer import baseDemultiplexMethods as B
     from singlecellmultiomics.universalBamTagger.universalBamTagger import QueryNameFlagger
-    root = os.path.dirname(os.path.realpath(singlecellmultiomics.__file__))
-    ip = BarcodeParser(barcodeDirectory=os.path.join(root, 'modularDemultiplexer/indices/'), hammingDistanceExpansion=1)
-    bp = BarcodeParser(barcodeDirectory=os.path.join(root, 'modularDemultiplexer/barcodes/'),
-                       hammingDistanceExpansion=0, lazyLoad=("10x_3M-february-2018",))
-    dmx = DemultiplexingStrategyLoader(barcodeParser=bp, indexParser=ip, indexFileAlias=None)
-    for s in dmx.demultiplexingStrategies:
-        _STB[s.shortName] = s
+    for cfg, (alias, _) in G.CONFIGS.items():
+        if H.ALIAS[cfg] != alias:
+            raise bind.HarnessError(f'configuration {cfg}: oracle and generator disagree about the index alias')
     # a whitelist whose cell indices are strings / integers, on the plain "3bp UMI + 8bp barcode" layout
     ub = BarcodeParser(barcodeDirectory='/nonexistent-c04', hammingDistanceExpansion=0)
     for bc, idx in USER_BARCODES:
         ub.addBarcode('user_str', barcode=bc, index=idx)
     _USER['s'] = B.UmiBarcodeDemuxMethod(umiRead=0, umiStart=0, umiLength=3, barcodeRead=0, barcodeStart=3,
                                          barcodeLength=8, barcodeFileParser=ub, barcodeFileAlias='user_str',
-                                         indexFileParser=ip, indexFileAlias='illumina_merged_ThruPlex48S_RP')
+                                         indexFileParser=G.PARSERS['index'], indexFileAlias='illumina_merged_ThruPlex48S_RP')
     _FN['enc'] = bind.seam(B, 'phredToFastqHeaderSafeQualities')
     _FN['dec'] = bind.seam(B, 'fastqHeaderSafeQualitiesToPhred')
     _FN['flagger'] = QueryNameFlagger
     _FN['NM'] = B.NonMultiplexable
 
 
-USER_BARCODES = [('ACACACTA', 'A1'), ('GTGTGAGT', 'well-2_b'), ('TTGGCCAA', '007'), ('CAGTCAGT', 12)]
+USER_BARCODES = [('ACACACTA', 'A1'), ('GTGTGAGT', 'well-2_b'), ('TTGGCCAA', '007'), ('CAGTCAGT', 12), ('GGAACCTT', 0)]
 USER = '_USERSTR'
 
 
@@ -76,18 +85,30 @@ def _strategies():
     return [s for s in L.ALL_SHORT]
 
 
-def _inputs(short):
-    """[(label, plant, single_end)] accepted inputs of the strategy: one per barcode source x 3 barcodes"""
+def _inputs(short, cfg='A'):
+    """[(label, plant, single_end)] accepted inputs of the strategy: one per barcode source x 3 barcodes;
+    configuration H: the same barcodes with one substitution each (raw barcode != corrected barcode)"""
+    if cfg == 'H':
+        if short == USER:
+            return []
+        out = []
+        se = G.se_mode(short) == 'only'
+        for label, alias, sg in G.sources(short):
+            for j, bc in enumerate(G.pick3(alias)):
+                raw = G.sub1(alias, bc)
+                if raw is not None:
+                    out.append((f'{label}{j}~', G.base_plant(short) + G.plant_bc(raw, sg), se))
+        return out
     if short == USER:
         return [(f'user{j}', [[0, 3, bc]], False) for j, (bc, _) in enumerate(USER_BARCODES)]
     out = []
-    se = G._se_mode(short) == 'only'
-    src = G._sources(short)
+    se = G.se_mode(short) == 'only'
+    src = G.sources(short)
     if not src:
         return [('bulk', [], False)]
     for label, alias, sg in src:
-        for j, bc in enumerate(G._pick3(alias)):
-            out.append((f'{label}{j}', G._base_plant(short) + G._plant_bc(bc, sg), se))
+        for j, bc in enumerate(G.pick3(alias)):
+            out.append((f'{label}{j}', G.base_plant(short) + G.plant_bc(bc, sg), se))
     return out
 
 
@@ -109,8 +130,12 @@ def _qual_positions(short):
 
 def bounds(tier):
     return {'strategies': len(L.ALL_SHORT) + 1, 'phred_chars': '33..126', 'read_length': READ,
-            'header_shapes': ['S1/index', 'S1/int-index', 'S1/1-mismatch-index', 'S2', 'S3', '3-DEC'],
-            'index_alias': ['illumina_merged_ThruPlex48S_RP', None], 'coordinate_sets': sorted(H.VALUES),
+            'header_shapes': ['S1/index', 'S1/int-index', 'S1/1-mismatch-index', 'S2', 'S2b', 'S3', '3-DEC', 'SCMO'],
+            'configurations': {c: {'index_alias': H.ALIAS[c], 'barcode_hamming_expansion': 1 if c == 'H' else 0}
+                               for c in sorted(H.ALIAS)},
+            'mates_handed_to_the_flagger': list(PRESENT), 'flagger_options': ['none', 'the keyword set of the tagger'],
+            'scd_names': ['scd', 'scd+LY'], 'user_cell_indices': [i for _, i in USER_BARCODES],
+            'coordinate_sets': {k: list(v) for k, v in sorted(H.VALUES.items())},
             'name_length_window': [240, 260] if tier == 'quick' else [225, 280],
             'barcodes_per_source_phred_sweep': 1 if tier == 'quick' else 3,
             'codec': 'all 94 characters, all 8836 pairs'}
@@ -125,22 +150,35 @@ def shards(tier):
     out.append(('session', 'forward'))
     out.append(('session', 'reverse'))
     out.append(('session', 'interleaved'))
+    out.append(('session', 'forward+options'))
+    out.append(('scd', 'all'))
     return out
 
 
-LIBS = ['L', 'lib-1_A', H.library(64), 'Z9_-']
+LIBS = ['L', 'lib-1_A', H.library(64), 'Z9_-', '0012']      # the last one: digits only, zero-padded
 SHAPES = [('A', 'S1', 'ATCACG'), ('A', 'S1', '3'), ('A', 'S1', 'ATCACC'), ('A', 'S2', None), ('A', 'S3', None), ('A', 'DEC', None),
-          ('B', 'S1', 'ATCACG'), ('B', 'S1', '3'), ('B', 'S2', None), ('B', 'S3', None), ('B', 'DEC', None)]
+          ('B', 'S1', 'ATCACG'), ('B', 'S1', '3'), ('B', 'S2', None), ('B', 'S3', None), ('B', 'DEC', None),
+          ('A', 'S2b', None), ('A', 'SCMO', 'ATCACG'), ('B', 'S2b', None), ('B', 'SCMO', 'ATCACG'),
+          ('H', 'S1', 'ATCACG'), ('H', 'S1', 'ATCACC'), ('H', 'SCMO', 'ATCACG'),
+          ('C', 'S1', 'ATCACGAT'), ('C', 'S1', 'ATCACGAA'), ('C', 'S1', '7'),
+          ('D', 'S1', 'ATCACGTT'), ('D', 'S1', 'ATCACGTA')]
+PRESENT = ('pair', 'r1', 'r2')      # digest([R1, R2]) / digest([R1, None]) / digest([None, R2])
+FLAGGER_OPTIONS = {'reference': None, 'alleleResolver': None, 'moleculeRadius': 0, 'verbose': False,
+                   'exon_gtf': None, 'intron_gtf': None}       # what universalBamTagger passes to every flagger
 
 
-def _case(short, label, plant, se, cfg='A', shape='S1', index='ATCACG', vals='v1', lib='LIB', qmut=()):
-    return {'s': short, 'in': label, 'plant': plant, 'se': se, 'cfg': cfg, 'shape': shape, 'index': index,
-            'vals': vals, 'lib': lib, 'qmut': [list(x) for x in qmut]}
+def _case(short, label, plant, se, cfg='A', shape='S1', index='ATCACG', vals='v1', lib='LIB', qmut=(), present='pair'):
+    c = {'s': short, 'in': label, 'plant': plant, 'se': se, 'cfg': cfg, 'shape': shape, 'index': index,
+         'vals': vals, 'lib': lib, 'qmut': [list(x) for x in qmut]}
+    if present != 'pair':
+        c['present'] = present
+    return c
 
 
 def _cases(shard, tier):
     kind, short = shard
     inputs = _inputs(short) if kind != 'codec' else []
+    inputs_h = _inputs(short, 'H') if kind == 'shapes' else []
     if kind == 'phred':
         use = inputs if tier == 'thorough' else [x for x in inputs if x[0].endswith('0')]
         for label, plant, se in use:
@@ -156,31 +194,36 @@ def _cases(shard, tier):
                             yield _case(short, label, plant, se, qmut=[(qp[0][0], qp[0][1], q1), (qp[-1][0], qp[-1][1], q2)])
     elif kind == 'shapes':
         use = inputs if tier == 'thorough' else inputs[:1] + inputs[-1:]
-        seen = set()
-        for label, plant, se in use:
-            if label in seen:
+        use_h = inputs_h if tier == 'thorough' else inputs_h[:1] + inputs_h[-1:]
+        for cfg, shape, index in SHAPES:
+            if short == USER and cfg != 'A':
                 continue
-            seen.add(label)
-            for cfg, shape, index in SHAPES:
-                if short == USER and cfg == 'B':
+            seen = set()
+            for label, plant, se in (use_h if cfg == 'H' else use):
+                if label in seen:
                     continue
+                seen.add(label)
                 for vals in sorted(H.VALUES):
                     for lib in LIBS:
-                        yield _case(short, label, plant, se, cfg=cfg, shape=shape, index=index, vals=vals, lib=lib)
+                        for present in PRESENT:
+                            if se and present == 'r2':
+                                continue
+                            yield _case(short, label, plant, se, cfg=cfg, shape=shape, index=index, vals=vals, lib=lib,
+                                        present=present)
     elif kind == 'liblen':
         lo, hi = (240, 260) if tier == 'quick' else (225, 280)
         for label, plant, se in inputs[:1] + (inputs[-1:] if len(inputs) > 1 else []):
-            for cfg in ('A', 'B'):
-                if short == USER and cfg == 'B':
+            for cfg, index in (('A', 'ATCACG'), ('B', 'ATCACG'), ('C', 'ATCACGAA')):
+                if short == USER and cfg != 'A':
                     continue
-                probe = _case(short, label, plant, se, cfg=cfg, lib='L')
+                probe = _case(short, label, plant, se, cfg=cfg, index=index, lib='L')
                 n1 = _name_length(probe)
                 if n1 is None:
                     continue
                 for target in range(lo, hi + 1):
                     n = target - n1 + 1
                     if n >= 1:
-                        yield _case(short, label, plant, se, cfg=cfg, lib=H.library(n, offset=target))
+                        yield _case(short, label, plant, se, cfg=cfg, index=index, lib=H.library(n, offset=target))
 
 
 # ---------------------------------------------------------------------------------------------- execution
@@ -193,7 +236,8 @@ def _encode(case):
     """-> ('rejected'|'exception'|'ok', payload) ; payload for ok: (raw reads, records, [first FASTQ line or exception])"""
     from singlecellmultiomics.fastqProcessing.fastqIterator import FastqRecord
     short = case['s']
-    strat = _USER['s'] if short == USER else (G._ST[0] if case['cfg'] == 'A' else _STB)[short]
+    cfg = case['cfg']
+    strat = _USER['s'] if short == USER else G.ST[cfg][short]
     raw = L.build_reads(case['plant'], READ, READ)
     if case['se']:
         raw = raw[:1]
@@ -241,42 +285,100 @@ def _name_length(case):
     return len(line) - 1 if isinstance(line, str) else None
 
 
-def _quality_expectations(short, raw):
-    """tag -> original phred characters (before saturation), from the C02 layout oracle"""
+def _quality_expectations(short, raw, hd=0):
+    """[tag -> original phred characters (before saturation)], one dict per admissible layout (C02 layout oracle;
+    with Hamming expansion a composite strategy may resolve either of its sub-layouts)"""
     if short == 'ILLU':
-        return {}
+        return [{}]
     if short == USER:
         exp = [L.expect_row(L.ROWS['MSPJIC8U3'], raw)]
     else:
-        exp = L.expected(short, raw, G._wl, 0)
+        exp = L.expected(short, raw, G.wl, hd)
     if not exp:
-        return {}
-    q = dict(exp[0]['qtags'])
-    if short == 'RBSN':
-        q['QT'] = L.cut(raw, L.ROWS['RBSN']['bc'], 3)
-        q['eq'] = L.cut(raw, L.ROWS['RBSN']['extra']['ES'], 3)
-    return q
+        return [{}]
+    out = []
+    for e in exp:
+        q = dict(e['qtags'])
+        if short == 'RBSN':
+            q['QT'] = L.cut(raw, L.ROWS['RBSN']['bc'], 3)
+            q['eq'] = L.cut(raw, L.ROWS['RBSN']['extra']['ES'], 3)
+        if q not in out:
+            out.append(q)
+    return out
 
 
 COPIED = ('BC', 'bc', 'bi', 'RX', 'MX', 'aA', 'aI', 'rS', 'lh', 'ES', 'IS', 'dt', 'tu', 'rx', 'RR')
+_PROBE = {}
+
+
+def _predicted_length(case):
+    """length the name of this case has to have, extrapolated from the names the SAME input gets with a 1- and a
+    2-character library (None when those cannot be produced)"""
+    key = repr(sorted((k, v) for k, v in case.items() if k not in ('lib', 'present')))
+    if key not in _PROBE:
+        n1 = _name_length(dict(case, lib='L'))
+        n2 = _name_length(dict(case, lib='LL'))
+        _PROBE[key] = None if n1 is None or n2 is None or n2 - n1 not in (0, 1) else (n1, n2 - n1)
+    if _PROBE[key] is None:
+        return None
+    n1, slope = _PROBE[key]
+    return n1 + slope * (len(case['lib']) - 1)
+
+
+def _refusal_justified(case, res):
+    """[] when refusing this name is legitimate (it would exceed what a BAM stores) or cannot be judged"""
+    ub = None
+    if res is not None:
+        try:
+            # k:v;k:v over ALL tags is an upper bound of the name (some tags are not written)
+            ub = max(len(';'.join(f'{k}:{v}' for k, v in r.tags.items())) for r in res if not isinstance(r, str))
+        except ValueError:
+            ub = None
+    if ub is not None and ub <= H.MAX_QNAME:
+        return [('asFastq:storable-name-refused', {'upper_bound_of_name_length': ub, 'library_length': len(case['lib'])})]
+    plen = _predicted_length(case)
+    if plen is not None and plen <= H.MAX_QNAME:
+        return [('asFastq:storable-name-refused', {'predicted_name_length': plen, 'library_length': len(case['lib'])})]
+    return []
+
+
+def _parse_name(name):
+    """the documented serialisation: k:v;k:v -> [(k, v)] (None when the name is not of that form)"""
+    out = []
+    for kv in name.split(';'):
+        if kv.count(':') != 1:
+            return None
+        out.append(tuple(kv.split(':')))
+    return out
+
+
+def _hand_over(segs, present):
+    """the list the tagger passes to digest for this pair"""
+    if present == 'pair' or len(segs) == 1 and present != 'r1':
+        return list(segs)
+    if present == 'r1':
+        return [segs[0], None]
+    return [None, segs[1]]
 
 
 def _run(case):
     """-> (status, [(signature, detail)])"""
     import pysam
     st, payload = _encode(case)
-    if st in ('rejected', 'refused'):
+    if st == 'rejected':
         return st, []
+    if st == 'refused':
+        return st, _refusal_justified(case, None)
     if st == 'exception':
         return 'encode-exception', [payload]
     raw, res, lines, hexp = payload
-    short = case['s']
+    short, cfg, present = case['s'], case['cfg'], case.get('present', 'pair')
     viols = []
     refused = [x for x in lines if not isinstance(x, str)]
     if refused:
         if len(refused) != len(lines):
             viols.append(('asFastq:only-one-mate-refused', [str(x)[:80] for x in lines]))
-        return 'refused', viols
+        return 'refused', viols + _refusal_justified(case, res)
     segs = []
     for i, line in enumerate(lines):
         name = line[1:]
@@ -288,40 +390,73 @@ def _run(case):
         a.query_name = name
         a.flag = (77 if i == 0 else 141) if len(lines) == 2 else 4
         segs.append(a)
+    handed = _hand_over(segs, present)
     try:
-        _FN['flagger']().digest(segs)
+        _FN['flagger']().digest(handed)
     except Exception as ex:      # noqa
         import sys
         return 'decode-exception', [(f'decode:{_site(sys.exc_info()[2])}:exception:{type(ex).__name__}', repr(ex))]
-    qexp = _quality_expectations(short, raw)
+    qexps = _quality_expectations(short, raw, 1 if cfg == 'H' else 0)
     for i, a in enumerate(segs):
+        if not any(a is h for h in handed):
+            continue                     # this mate was not handed to the flagger (the other one is the observed read)
         got = dict(a.get_tags())
         enc = dict(res[i].tags) if not isinstance(res[i], str) else {}
+        named = _parse_name(lines[i][1:])
+        if named is None:
+            viols.append(('asFastq:name-not-a-k:v;k:v-list', lines[i][:200]))
+            named = []
+        named = dict(named)
         want = {}
         for tag, val in hexp.items():
             if tag != 'name':
                 want[tag] = val
-        want['LY'] = case['lib']
+        lib = case['lib']
+        if case['shape'] == 'SCMO':
+            # the header brought a library of its own: whichever of the two the name carries has to come back
+            lib = named.get('LY')
+            if lib not in (case['lib'], H.PREVIOUS_LIBRARY):
+                viols.append(('asFastq:library-in-name-is-neither-the-previous-nor-the-new-one', {'name': lines[i][:200]}))
+                lib = case['lib']
+        want['LY'] = lib
         for tag in COPIED:
             if tag in enc and enc[tag] is not None:
                 want[tag] = str(enc[tag])
         if 'aa' in enc and 'aa' not in want:
             want['aa'] = str(enc['aa'])
-        for tag, orig in qexp.items():
-            if tag in enc or orig != '':
-                want[tag] = H.saturate(orig)
         if 'bi' in enc:
-            want['SM'] = f"{case['lib']}_{enc['bi']}"
+            want['SM'] = f"{lib}_{enc['bi']}"
         if enc.get('aA') is not None and 'BC' in enc:
             want['MI'] = str(enc['BC']) + str(enc.get('RX', '')) + str(enc['aA'])
-        for tag, val in want.items():
-            if tag not in got:
-                if val == '':
-                    continue
-                viols.append((f'roundtrip:{tag}-lost', {'strategy': short, 'mate': i + 1, 'want': val}))
-            elif str(got[tag]) != val:
-                viols.append((f'roundtrip:{tag}-changed', {'strategy': short, 'mate': i + 1, 'got': got[tag], 'want': val,
+        # everything else the name carries (k:v) has to come back as written, phred tags as phred characters
+        qtags = set().union(*[set(q) for q in qexps])
+        for tag, val in named.items():
+            if tag in want or tag in qtags or tag in H.DERIVED or tag in H.FIELDS or tag in ('Fi', 'CN'):
+                continue
+            if tag in H.PHRED_TAGS:
+                if all(c in H.LETTERS for c in val):
+                    want[tag] = H.unletters(val)
+            else:
+                want[tag] = val
+        best = None
+        for qexp in qexps:
+            w = dict(want)
+            for tag, orig in qexp.items():
+                if tag in enc or orig != '':
+                    w[tag] = H.saturate(orig)
+            v = []
+            for tag, val in w.items():
+                if tag not in got:
+                    if val == '':
+                        continue
+                    v.append((f'roundtrip:{tag}-lost', {'strategy': short, 'mate': i + 1, 'want': val, 'cfg': cfg,
+                                                         'handed': present}))
+                elif str(got[tag]) != val:
+                    v.append((f'roundtrip:{tag}-changed', {'strategy': short, 'mate': i + 1, 'got': got[tag], 'want': val,
                                                             'name': lines[i][:200]}))
+            if best is None or len(v) < len(best):
+                best = v
+        viols.extend(best or [])
         if 'name' in hexp and a.query_name != hexp['name']:
             viols.append(('roundtrip:illumina-read-name-changed', {'got': a.query_name, 'want': hexp['name']}))
     seen, out = set(), []
@@ -329,7 +464,40 @@ def _run(case):
         if s not in seen:
             seen.add(s)
             out.append((s, d))
-    return 'decoded', out
+    differs = any(not isinstance(r, str) and r.tags.get('bc') is not None and r.tags.get('bc') != r.tags.get('BC') for r in res)
+    return 'decoded' + (':raw-barcode-differs' if differs else ''), out
+
+
+def _scd(case):
+    """decode-only: a Single Cell Discoveries read name through the flagger"""
+    import pysam
+    name, exp = H.scd_name(H.VALUES[case['vals']], case['variant'])
+    segs = []
+    for i in range(1 if case['present'] == 'single' else 2):
+        a = pysam.AlignedSegment()
+        a.query_name = name
+        a.flag = 4 if case['present'] == 'single' else (77 if i == 0 else 141)
+        segs.append(a)
+    handed = segs if case['present'] in ('single', 'pair') else _hand_over(segs, case['present'])
+    try:
+        _FN['flagger']().digest(handed)
+    except Exception as ex:      # noqa
+        import sys
+        return [(f'decode:scd:{_site(sys.exc_info()[2])}:exception:{type(ex).__name__}', repr(ex))]
+    out = {}
+    for i, a in enumerate(segs):
+        if not any(a is h for h in handed):
+            continue
+        got = dict(a.get_tags())
+        for tag, val in exp.items():
+            if tag == 'name':
+                if a.query_name != val:
+                    out.setdefault('scd:illumina-read-name-changed', {'got': a.query_name, 'want': val})
+            elif tag not in got:
+                out.setdefault(f'scd:{tag}-lost', {'mate': i + 1, 'want': val, 'name': name})
+            elif str(got[tag]) != val:
+                out.setdefault(f'scd:{tag}-changed', {'mate': i + 1, 'got': got[tag], 'want': val, 'name': name})
+    return list(out.items())
 
 
 def _codec(case):
@@ -394,13 +562,17 @@ def run_session(order):
     """ONE QueryNameFlagger instance decodes reads of all strategies in sequence (as the tagger does on a merged BAM);
     every read must come out exactly as from a fresh flagger"""
     seq = _session_names()
+    make = _FN['flagger']
+    if order == 'forward+options':
+        def make():
+            return _FN['flagger'](**FLAGGER_OPTIONS)
     if order == 'reverse':
         seq = seq[::-1]
     elif order == 'interleaved':
         seq = seq[0::2] + seq[1::2]
     viols = {}
     try:
-        shared = _FN['flagger']()
+        shared = make()
         for short, names in seq:
             fresh = _digest(_FN['flagger'](), names)
             got = _digest(shared, names)
@@ -428,6 +600,16 @@ def run_shard(shard, tier, acc):
             acc.violation(sig, case, d)
         return
     setup()
+    if shard[0] == 'scd':
+        for vals in sorted(H.VALUES):
+            for variant in ('scd', 'scd+LY'):
+                for present in ('single',) + PRESENT:
+                    case = {'fn': 'scd', 'vals': vals, 'variant': variant, 'present': present}
+                    v = _scd(case)
+                    acc.case(case, transitions=1, nontrivial=True, outcome=f'scd:{variant}:{present}')
+                    for sig, d in v:
+                        acc.violation(sig, case, d)
+        return
     if shard[0] == 'codec':
         a = shard[1]
         c1s = range(33 + a, min(33 + a + 6, 127))
@@ -445,9 +627,10 @@ def run_shard(shard, tier, acc):
         status, viols = _run(case)
         n += 1
         hi = any(q > 33 + 51 for _, _, q in case['qmut'])
-        acc.case(case, transitions=3, nontrivial=status in ('decoded', 'refused'),
-                 outcome=f"{shard[0]}:{case['cfg']}/{case['shape']}:{status}{':saturating' if hi else ''}")
-        acc.count(f'{status}:{short}')
+        acc.case(case, transitions=3, nontrivial=status.split(':')[0] in ('decoded', 'refused'),
+                 outcome=f"{shard[0]}:{case['cfg']}/{case['shape']}:{case.get('present', 'pair')}:{status}"
+                         f"{':saturating' if hi else ''}")
+        acc.count(f"{status.split(':')[0]}:{short}")
         for sig, d in viols:
             acc.violation(sig, case, d)
     if n == 0 and shard[0] == 'phred':
@@ -461,4 +644,6 @@ def replay(case):
     setup()
     if case.get('fn') == 'codec':
         return _codec(case)
+    if case.get('fn') == 'scd':
+        return _scd(case)
     return _run(case)[1]
